@@ -4,7 +4,7 @@ CONSTANTS
   Master = "V1"
   InitOrder <- Order3Late
   ASOf <- AS3
-  UploadSets <- U_t3m5_dev
+  UploadSets <- U_t3m5_nm
   Windows = {2, 3, 8}
   InitWindow = 8
   Video <- Vid3
